@@ -313,6 +313,18 @@ func (p *Provider) RoundTrip(req *http.Request) (*http.Response, error) {
 	case 0: // 200 with a complete envelope
 		x := pickText()
 		d.Status = 200
+		if t.Chance("status.2xx", 1, 25) {
+			// a success status other than 200 carrying a complete answer: the
+			// statement speaks of HTTP 200 / 4xx / 429 / 5xx, so a pass here is not constrained
+			st := vs.Pick(t, "status.2xx.code", 201, 202, 203, 206)
+			d.Status = st
+			cls := x.class
+			if cls == Good {
+				cls = Ambiguous
+			}
+			deliver(fmt.Sprintf("http%d", st), cls)
+			return httpResp(req, st, io.NopCloser(bytes.NewReader(p.wrap(x.body, 0)))), nil
+		}
 		variant := 0
 		if p.Family == "openai" {
 			variant = t.Weighted("wrap.variant", 4, 2, 2, 1, 1, 2)
@@ -339,7 +351,11 @@ func (p *Provider) RoundTrip(req *http.Request) (*http.Response, error) {
 		deliver("ok", x.class)
 		return httpResp(req, 200, io.NopCloser(bytes.NewReader(p.wrap(x.body, variant)))), nil
 	case 1: // fatal 4xx, body carries a *good* answer that must not be accepted
-		st := vs.Pick(t, "status.fatal", 400, 401, 403, 404, 422)
+		st := vs.Pick(t, "status.fatal", 400, 401, 403, 404, 422, 408, 418, 451, 301, 302, 304, 307)
+		if t.Chance("status.odd", 1, 3) {
+			// server-side / gateway statuses outside the usual 500-504 list: still a provider fault
+			st = vs.Pick(t, "status.odd5xx", 501, 505, 507, 508, 511, 520, 522, 529, 599)
+		}
 		d.Status = st
 		x := texts[0]
 		var b []byte
